@@ -449,6 +449,7 @@ package rux
 //@   defines result == fp(path, r.strictLastSlash)
 //@   ensures NF: NF(result, r.strictLastSlash)
 //@   ensures root: (path == "" || path == "/") ==> result == "/"
+//@   ensures starts_with_slash: prefixof("/", result)
 //
 //@ func simpleFmtPath [C11, C13]
 //@   defines result == sfp(path)
@@ -569,6 +570,7 @@ package rux
 //@ ghost lastRoute(ref) ref
 //@ ghost lastAlm(ref) int
 //@ ghost lastPath(ref) string
+//@ ghost lastLookup(ref) string
 //@ ghost lastMethod(ref) string
 //@ ghost hookCalls(ref) int
 //
@@ -597,14 +599,6 @@ package rux
 //@   ensures stored: key in c.data && c.data[key] == val && c.data != nil
 //@   ensures others_kept: old(c.data) != nil ==> c.data == old(c.data) && (forall k string :: k != key ==> (k in c.data) == old(k in c.data) && c.data[k] == old(c.data[k]))
 //@   ensures fresh_map: old(c.data) == nil ==> fresh(c.data) && (forall k string :: k != key ==> !(k in c.data))
-//
-// Summary of route lookup used by the dispatcher (refined by the table contracts of C01/C06/C07).
-//@ trusted (*Router).QuickMatch(r, method, path) (route, ps, alm)
-//@   modifies held(r.cachedRoutes.lock), entries(r.cachedRoutes.hashMap), lmem(r.cachedRoutes.list, _), rank(_), lclock(r.cachedRoutes.list), ln(r.cachedRoutes.list), lback(r.cachedRoutes.list)
-//@   modifies lastRoute(r), lastAlm(r), lastPath(r), lastMethod(r)
-//@   ensures lastRoute(r) == route && lastAlm(r) == len(alm) && lastPath(r) == path && lastMethod(r) == method
-//@   ensures route != nil ==> routeOK(route) && isReg(route) && len(alm) == 0
-//@   ensures route == nil ==> ps == nil
 //
 // Router hooks (OnPanic, OnError): ordinary user code acting through the Context API, but not part
 // of the chain. hookPanics: whether the hook itself panics (unknown to the router).
@@ -635,13 +629,59 @@ package rux
 //@   ensures old(wInv(&c.writer)) ==> wInv(&c.writer)
 //@   ensures old(c.writer.length) >= 0 ==> c.writer.length >= old(c.writer.length) && hdrStatus(c.writer.Writer) == old(hdrStatus(c.writer.Writer))
 //
+// chainsFit(r): with the global middleware in front, every registered chain stays within the documented
+// limit of 63 handlers (an assumption on the application: Router.Use does not check it, see D11).
+//@ spec fits(r *Router, rt *Route) bool = len(r.handlers) + len(rt.handlers) + 1 <= 63
+//@ spec listFits(r *Router, rs routes) bool = forall i int :: 0 <= i && i < len(rs) ==> fits(r, rs[i])
+//@ spec chainsFit(r *Router) bool = (forall k string :: k in r.stableRoutes ==> fits(r, r.stableRoutes[k]))
+//@     && (forall k string :: k in r.regularRoutes ==> listFits(r, r.regularRoutes[k]))
+//@     && (forall k string :: k in r.irregularRoutes ==> listFits(r, r.irregularRoutes[k]))
+//@     && (r.cachedRoutes != nil ==> (forall k string :: k in r.cachedRoutes.hashMap ==> fits(r, view(r.cachedRoutes, k))))
+//@ spec lookupPath(r *Router, path string) string = r.interceptAll != "" ? fp(r.interceptAll, r.strictLastSlash) : fp(path, r.strictLastSlash)
+//@ spec validMethod(m string) bool = !contains(m, "/")
+//@ spec routerInv(r *Router) bool = tablesWF(r) && cacheNN(r) && methodsTable()
+//
+//@ func (*Router).QuickMatch [C01, C06, C07, C11, C13, C03]
+//@   uses methods_no_slash
+//@   requires tablesWF(r) && cacheNN(r) && methodsTable()
+//@   modifies held(r.cachedRoutes.lock), entries(r.cachedRoutes.hashMap), lmem(r.cachedRoutes.list, _), rank(_), lclock(r.cachedRoutes.list), ln(r.cachedRoutes.list), lback(r.cachedRoutes.list), cacheNode.Value
+//@   modifies isReg(_), lastLookup(r), lastRoute(r), lastAlm(r), lastPath(r), lastMethod(r)
+//@   ghostset lastRoute(r) = route
+//@   ghostset lastAlm(r) = len(alm)
+//@   ghostset lastPath(r) = path
+//@   ghostset lastMethod(r) = method
+//@   ensures recorded: lastRoute(r) == route && lastAlm(r) == len(alm) && lastPath(r) == path && lastMethod(r) == method
+//@   ensures wf: tablesWF(r) && methodsTable() && (validMethod(method) ==> cacheNN(r))
+//@   ensures dispatchable: route != nil ==> routeOK(route) && isReg(route) && len(alm) == 0
+//@   ensures[C04, C05] chains_fit: old(chainsFit(r)) ==> chainsFit(r) && (route != nil ==> fits(r, route))
+//@   ensures no_params_without_route: route == nil ==> ps == nil
+//@   ensures[C11, C06] one_normaliser: lastLookup(r) == lookupPath(r, path)
+//@   ensures[C06] direct_match_first: validMethod(method) && tm(r, method, lookupPath(r, path)) ==> route != nil
+//@   ensures[C06] head_falls_back_to_get: method == "HEAD" && !tm(r, method, lookupPath(r, path)) && tm(r, "GET", lookupPath(r, path)) ==> route != nil
+//@   ensures[C06] then_fallback_route: validMethod(method) && !tm(r, method, lookupPath(r, path)) && !(method == "HEAD" && tm(r, "GET", lookupPath(r, path)))
+//@       && r.handleFallbackRoute && (method + "/*") in r.stableRoutes ==> route == r.stableRoutes[method + "/*"] && ps == nil && len(alm) == 0
+//@   ensures[C06] then_method_not_allowed: validMethod(method) && !tm(r, method, lookupPath(r, path)) && !(method == "HEAD" && tm(r, "GET", lookupPath(r, path)))
+//@       && !(r.handleFallbackRoute && (method + "/*") in r.stableRoutes) && r.handleMethodNotAllowed ==> route == nil
+//@       && (forall q int :: 0 <= q && q < len(alm) ==> isMethod(alm[q]) && alm[q] != method && tm(r, alm[q], lookupPath(r, path)))
+//@       && (forall x string :: isMethod(x) && x != method && tm(r, x, lookupPath(r, path)) ==> (exists q int :: 0 <= q && q < len(alm) && alm[q] == x))
+//@   ensures[C06] else_not_found: validMethod(method) && !tm(r, method, lookupPath(r, path)) && !(method == "HEAD" && tm(r, "GET", lookupPath(r, path)))
+//@       && !(r.handleFallbackRoute && (method + "/*") in r.stableRoutes) && !r.handleMethodNotAllowed ==> route == nil && len(alm) == 0
+//
+//@ func (*Router).Match [C06, C13]
+//@   requires tablesWF(r) && cacheNN(r) && methodsTable()
+//@   modifies held(r.cachedRoutes.lock), entries(r.cachedRoutes.hashMap), lmem(r.cachedRoutes.list, _), rank(_), lclock(r.cachedRoutes.list), ln(r.cachedRoutes.list), lback(r.cachedRoutes.list), cacheNode.Value
+//@   modifies isReg(_), lastLookup(r), lastRoute(r), lastAlm(r), lastPath(r), lastMethod(r)
+//@   ensures wf: tablesWF(r) && methodsTable()
+//
 //@ spec reqOK(c *Context) bool = c.Req != nil && c.Req.URL != nil
 //@ spec fallbackChains(r *Router) bool = withinLimit(r, max(len(r.noRoute), 1)) && withinLimit(r, max(len(r.noAllowed), 1))
-//@     && (forall rt *Route :: isReg(rt) ==> withinLimit(r, len(rt.handlers) + 1))
+//@     && chainsFit(r)
 //
 //@ func (*Router).handleHTTPRequest [C03, C04, C08, C09, C10]
 //@   requires ctx != nil && pristine(ctx) && wInv(&ctx.writer) && reqOK(ctx) && started(ctx) == 0 && !aborted(ctx) && hookCalls(ctx) == 0 && owned(ctx)
 //@   requires within_limit: fallbackChains(r)
+//@   requires router_ready: routerInv(r) && validMethod(ctx.Req.Method)
+//@   modifies isReg(_), lastLookup(r), cacheNode.Value
 //@   modifies ctx.index, ctx.data, entries(ctx.data), ctx.Errors, ctx.Req, ctx.Resp, ctx.Params, ctx.handlers, started(ctx), aborted(ctx)
 //@   modifies ctx.writer.status, ctx.writer.length, hdrCalls(ctx.writer.Writer), hdrStatus(ctx.writer.Writer), body(ctx.writer.Writer), early(ctx.writer.Writer)
 //@   modifies held(r.cachedRoutes.lock), entries(r.cachedRoutes.hashMap), lmem(r.cachedRoutes.list, _), rank(_), lclock(r.cachedRoutes.list), ln(r.cachedRoutes.list), lback(r.cachedRoutes.list)
@@ -664,7 +704,8 @@ package rux
 //@   ensures[C08, C09] committed_once: wInv(&ctx.writer) && ctx.writer.length >= 0 && hdrCalls(ctx.writer.Writer) == 1
 
 //@ func (*Router).ServeHTTP [C03, C08, C09, C10]
-//@   requires freshWriter(res) && req != nil && req.URL != nil && fallbackChains(r)
+//@   requires freshWriter(res) && req != nil && req.URL != nil && fallbackChains(r) && routerInv(r) && validMethod(req.Method)
+//@   modifies isReg(_), lastLookup(r), cacheNode.Value
 //@   modifies allfields(Context), allelems([]error), allelems([]HandlerFunc), started(_), aborted(_), hookCalls(_), owned(_), lastRoute(r), lastAlm(r), lastPath(r), lastMethod(r)
 //@   modifies hdrCalls(res), hdrStatus(res), body(res), early(res), allentries(M)
 //@   modifies held(r.cachedRoutes.lock), entries(r.cachedRoutes.hashMap), lmem(r.cachedRoutes.list, _), rank(_), lclock(r.cachedRoutes.list), ln(r.cachedRoutes.list), lback(r.cachedRoutes.list)
@@ -736,16 +777,13 @@ package rux
 //@   pure
 //@   ensures n == nsub(re) && n >= 0
 //
-// distinctVars(rt): ghost flag recorded at registration: the variable names of the pattern are pairwise distinct.
-//@ ghost distinctVars(ref) bool
-// routeWF and psOK are opaque outside matchRegex and the registration code that establishes them.
-//@ opaque routeWF(rt *Route) bool = rt != nil && rt.regex != nil && nsub(rt.regex) == len(rt.matches) && (distinctVars(rt) ==> distinctNames(rt))
-//@ spec distinctNames(rt *Route) bool = forall j int, k int :: 0 <= j && j < k && k < len(rt.matches) ==> rt.matches[j] != rt.matches[k]
-// psOK: the parameters are exactly the submatches, positionally (for patterns whose variable names are
-// distinct; with a repeated name the last occurrence wins and the clause leaves the value open).
+//@ opaque routeWF(rt *Route) bool = rt != nil && rt.regex != nil && nsub(rt.regex) == len(rt.matches)
+// psOK: the parameters are exactly the submatches, positionally: the value of a variable name is the submatch of its
+// last occurrence in the pattern (names are normally distinct, then every variable gets its own submatch).
+//@ spec lastOcc(rt *Route, j int) bool = forall k int :: j < k && k < len(rt.matches) ==> rt.matches[k] != rt.matches[j]
 //@ opaque psOK(ps Params, rt *Route, p string) bool = ps != nil && len(ps) <= len(rt.matches)
 //@     && (forall j int :: 0 <= j && j < len(rt.matches) ==> rt.matches[j] in ps)
-//@     && (distinctVars(rt) ==> (forall j int :: 0 <= j && j < len(rt.matches) ==> ps[rt.matches[j]] == reSub(rt.regex, p, j + 1)))
+//@     && (forall j int :: 0 <= j && j < len(rt.matches) && lastOcc(rt, j) ==> ps[rt.matches[j]] == reSub(rt.regex, p, j + 1))
 //
 //@ func (*Route).matchRegex [C02, C13, C01]
 //@   reveals routeWF, psOK
@@ -758,7 +796,8 @@ package rux
 //@   invariant -1 <= rangeindex && rangeindex < len($call_FindAllStringSubmatch_0[0]) - 1
 //@   invariant $makemap0 != nil && fresh($makemap0) && len($makemap0) <= rangeindex + 1
 //@   invariant forall j int :: 0 <= j && j <= rangeindex ==> r.matches[j] in $makemap0
-//@   invariant distinctVars(r) ==> (forall j int :: 0 <= j && j <= rangeindex ==> $makemap0[r.matches[j]] == reSub(r.regex, path, j + 1))
+//@   invariant forall j int :: 0 <= j && j <= rangeindex && (forall k int :: j < k && k <= rangeindex ==> r.matches[k] != r.matches[j])
+//@       ==> $makemap0[r.matches[j]] == reSub(r.regex, path, j + 1)
 //
 //@ spec copyOf(a *Route, b *Route) bool = a.name == b.name && a.path == b.path && a.methods == b.methods && a.start == b.start
 //@     && a.spath == b.spath && a.handler == b.handler && a.handlers == b.handlers && a.Opts == b.Opts
@@ -768,23 +807,26 @@ package rux
 //@   ensures copy: result != nil && fresh(result) && copyOf(result, r) && result.params == ps && result.regex == nil && len(result.matches) == 0
 //@   ensures isReg(result) == old(isReg(r)) && (forall x ref :: x != result ==> isReg(x) == old(isReg(x)))
 
-//@ spec listWF(rs routes) bool = forall i int :: 0 <= i && i < len(rs) ==> rs[i] != nil && routeWF(rs[i])
+//@ spec listWF(rs routes) bool = forall i int :: 0 <= i && i < len(rs) ==> rs[i] != nil && routeWF(rs[i]) && routeOK(rs[i]) && isReg(rs[i])
 //@ spec cacheReady(r *Router) bool = (r.cachedRoutes != nil ==> cacheInv(r.cachedRoutes)) && (r.cachedRoutes != nil ==> held(r.cachedRoutes.lock) == 0)
-//@     && (r.cachedRoutes != nil ==> (forall k string :: k in r.cachedRoutes.hashMap ==> view(r.cachedRoutes, k) != nil))
+//@     && (r.cachedRoutes != nil ==> (forall k string :: k in r.cachedRoutes.hashMap ==> view(r.cachedRoutes, k) != nil && routeOK(view(r.cachedRoutes, k)) && isReg(view(r.cachedRoutes, k))))
 //@ spec tablesWF(r *Router) bool = (forall k string :: k in r.regularRoutes ==> listWF(r.regularRoutes[k]))
 //@     && (forall k string :: k in r.irregularRoutes ==> listWF(r.irregularRoutes[k]))
+//@     && (forall k string :: k in r.stableRoutes ==> r.stableRoutes[k] != nil && routeOK(r.stableRoutes[k]) && isReg(r.stableRoutes[k]))
 //@     && cacheReady(r)
 //@     && (r.enableCaching && r.cachedRoutes == nil ==> (forall k string :: !(k in r.regularRoutes)) && (forall k string :: !(k in r.irregularRoutes)))
 //
 //@ func (*Router).cacheDynamicRoute [C07, C14, C13, C03]
-//@   requires route != nil && cacheReady(r) && (r.enableCaching ==> r.cachedRoutes != nil)
+//@   requires route != nil && routeOK(route) && isReg(route) && cacheReady(r) && (r.enableCaching ==> r.cachedRoutes != nil)
 //@   modifies held(r.cachedRoutes.lock), entries(r.cachedRoutes.hashMap), lmem(r.cachedRoutes.list, _), rank(_), lclock(r.cachedRoutes.list), ln(r.cachedRoutes.list), lback(r.cachedRoutes.list), cacheNode.Value
 //@   modifies isReg(_)
 //@   ensures ready: cacheReady(r)
 //@   ensures[C14] stored_under_key: r.enableCaching && r.cachedRoutes.size >= 1 ==> key in r.cachedRoutes.hashMap
-//@       && copyOf(view(r.cachedRoutes, key), route) && view(r.cachedRoutes, key).params == ps && fresh(view(r.cachedRoutes, key))
-//@   ensures disabled_no_effect: !r.enableCaching ==> (forall k string :: (k in r.cachedRoutes.hashMap) == old(k in r.cachedRoutes.hashMap))
+//@   ensures[C14, C07] stored_copy: r.enableCaching && key in r.cachedRoutes.hashMap ==> copyOf(view(r.cachedRoutes, key), route) && view(r.cachedRoutes, key).params == ps && fresh(view(r.cachedRoutes, key))
+//@   ensures disabled_no_effect: !r.enableCaching ==> (forall k string :: (k in r.cachedRoutes.hashMap) == old(k in r.cachedRoutes.hashMap) && view(r.cachedRoutes, k) == old(view(r.cachedRoutes, k)))
 //@   ensures regs: forall x ref :: allocated(x) ==> isReg(x) == old(isReg(x))
+//@   ensures domain_grows_by_key_only: forall k string :: k in r.cachedRoutes.hashMap ==> k == key || old(k in r.cachedRoutes.hashMap)
+//@   ensures other_views_kept: forall k string :: k != key && k in r.cachedRoutes.hashMap ==> view(r.cachedRoutes, k) == old(view(r.cachedRoutes, k))
 
 // Lookup in the tables. seg(p): position of the second '/' in p minus one; rkey: the key of the regular tier.
 //@ spec seg(p string) int = indexof(substr(p, 1, len(p) - 1), "/")
@@ -798,8 +840,24 @@ package rux
 //@ spec irrHit(r *Router, m string, p string) bool = m in r.irregularRoutes && !noneI(r.irregularRoutes[m], p)
 //@ spec cacheHit(r *Router, k string) bool = r.enableCaching && r.cachedRoutes != nil && k in r.cachedRoutes.hashMap
 //
+// cacheNN: every cache entry belongs to a (method, path) that the dynamic tables match (so a hit never
+// changes whether a route is found). Kept only for well-formed method/path pairs (okMP).
+//@ spec dynHit(r *Router, m string, p string) bool = regHit(r, m, p) || irrHit(r, m, p)
+//@ spec cacheNN(r *Router) bool = r.cachedRoutes != nil ==> (forall m string, p string :: okMP(m, p) && (m + p) in r.cachedRoutes.hashMap ==> dynHit(r, m, p))
+//
 //@ func (*Router).match [C01, C02, C07, C13, C14, C03]
+//@   uses key_cancel
 //@   requires len(path) >= 1 && tablesWF(r)
+//@   requires[C06, C07] cache_consistent: okMP(method, path) ==> cacheNN(r)
+//@   modifies lastLookup(r)
+//@   ghostset lastLookup(r) = path
+//@   ensures lookup_recorded: lastLookup(r) == path
+//@   ensures result_is_registered: rt != nil ==> routeOK(rt) && isReg(rt)
+//@   ensures[C04, C05] chains_fit: old(chainsFit(r)) ==> chainsFit(r) && (rt != nil ==> fits(r, rt))
+//@   ensures no_params_without_route: rt == nil ==> ps == nil
+//@   ensures[C06, C07] cache_stays_consistent: okMP(method, path) ==> cacheNN(r)
+//@   ensures[C06, C07] cache_stays_consistent_on_miss: rt == nil && old(cacheNN(r)) ==> cacheNN(r)
+//@   ensures[C01, C06, C07] found_iff_tables_match: okMP(method, path) ==> ((rt != nil) == ((method + path) in r.stableRoutes || dynHit(r, method, path)))
 //@   modifies held(r.cachedRoutes.lock), entries(r.cachedRoutes.hashMap), lmem(r.cachedRoutes.list, _), rank(_), lclock(r.cachedRoutes.list), ln(r.cachedRoutes.list), lback(r.cachedRoutes.list), cacheNode.Value
 //@   modifies isReg(_)
 //@   ensures wf: tablesWF(r)
@@ -815,9 +873,43 @@ package rux
 //@       ==> (method + path) in r.cachedRoutes.hashMap && copyOf(view(r.cachedRoutes, method + path), rt) && view(r.cachedRoutes, method + path).params == ps
 //@ loop (*Router).match #0
 //@   vars rangeindex
-//@   invariant -1 <= rangeindex && rangeindex < len($lookup1) && tablesWF(r)
+//@   invariant -1 <= rangeindex && rangeindex < len($lookup1) && tablesWF(r) && (okMP(method, path) ==> cacheNN(r)) && (old(chainsFit(r)) ==> chainsFit(r))
 //@   invariant forall j int :: 0 <= j && j <= rangeindex ==> !qualR($lookup1[j], path)
 //@ loop (*Router).match #1
 //@   vars rangeindex
-//@   invariant -1 <= rangeindex && rangeindex < len($lookup2) && tablesWF(r)
+//@   invariant -1 <= rangeindex && rangeindex < len($lookup2) && tablesWF(r) && (okMP(method, path) ==> cacheNN(r)) && (old(chainsFit(r)) ==> chainsFit(r))
 //@   invariant forall j int :: 0 <= j && j <= rangeindex ==> !reAcc($lookup2[j].regex, path)
+
+// Keys of the static table and of the cache are METHOD ++ path. For method names without '/' and paths
+// that start with '/', the key determines both parts (proved once in the theory of strings).
+//@ spec okMP(m string, p string) bool = !contains(m, "/") && prefixof("/", p)
+//@ lemma key_cancel: [C01, C06, C07] forall m string, p string, m2 string, p2 string :: okMP(m, p) && okMP(m2, p2) && m + p == m2 + p2 ==> m == m2 && p == p2
+
+// tm(r, m, p): the tables (static or dynamic tiers) match method m and path p; independent of the cache.
+//@ spec tm(r *Router, m string, p string) bool = (m + p) in r.stableRoutes || dynHit(r, m, p)
+//@ lemma methods_no_slash: [C06, C07] forall x string :: isMethod(x) ==> !contains(x, "/")
+//
+//@ func (*Router).findAllowedMethods [C06, C13, C03, C07]
+//@   uses methods_no_slash
+//@   requires len(path) >= 1 && tablesWF(r) && cacheNN(r) && methodsTable()
+//@   modifies held(r.cachedRoutes.lock), entries(r.cachedRoutes.hashMap), lmem(r.cachedRoutes.list, _), rank(_), lclock(r.cachedRoutes.list), ln(r.cachedRoutes.list), lback(r.cachedRoutes.list), cacheNode.Value
+//@   modifies isReg(_), lastLookup(r)
+//@   ensures wf: tablesWF(r) && (prefixof("/", path) ==> cacheNN(r))
+//@   ensures lookups_use_path: lastLookup(r) == path || lastLookup(r) == old(lastLookup(r))
+//@   ensures[C04, C05] chains_fit: old(chainsFit(r)) ==> chainsFit(r)
+//@   ensures[C06] only_other_matching_methods: prefixof("/", path) ==> (forall q int :: 0 <= q && q < len(allowed) ==> isMethod(allowed[q]) && allowed[q] != method && tm(r, allowed[q], path))
+//@   ensures[C06] all_of_them: prefixof("/", path) ==> (forall x string :: isMethod(x) && x != method && tm(r, x, path) ==> (exists q int :: 0 <= q && q < len(allowed) && allowed[q] == x))
+//@   ensures[C06] no_duplicates: forall q1 int, q2 int :: 0 <= q1 && q1 < q2 && q2 < len(allowed) ==> allowed[q1] != allowed[q2]
+//@ loop (*Router).findAllowedMethods #0
+//@   vars rangeindex
+//@   invariant -1 <= rangeindex && rangeindex < 9 && tablesWF(r) && (prefixof("/", path) ==> cacheNN(r)) && methodsTable()
+//@   invariant lastLookup(r) == path || lastLookup(r) == old(lastLookup(r))
+//@   invariant old(chainsFit(r)) ==> chainsFit(r)
+//@   invariant $makemap0 != nil && fresh($makemap0) && len($makemap0) >= 0 && (forall x string :: x in $makemap0 ==> len($makemap0) >= 1)
+//@   invariant prefixof("/", path) ==> (forall x string :: x in $makemap0 ==> isMethod(x) && x != method && tm(r, x, path))
+//@   invariant prefixof("/", path) ==> (forall j int :: 0 <= j && j <= rangeindex && anyMethods[j] != method && tm(r, anyMethods[j], path) ==> anyMethods[j] in $makemap0)
+//@ loop (*Router).findAllowedMethods #1
+//@   vars allowed
+//@   invariant 0 <= iterpos && iterpos <= itercard && len(allowed) == iterpos && (arr(allowed) == nil || fresh(arr(allowed)))
+//@   invariant forall q int :: 0 <= q && q < iterpos ==> allowed[q] == iterkey(q)
+//@   invariant tablesWF(r) && (prefixof("/", path) ==> cacheNN(r)) && (old(chainsFit(r)) ==> chainsFit(r))
